@@ -53,6 +53,26 @@ func VerifWatermarkTick(w Window) {
 	}
 }
 
+// VerifWatermarkTickIdle runs one ticker update with the source made idle (the last event lies two idle
+// timeouts back) or busy (the last event is now), so a harness with IDLETIMEOUT configured can place idle
+// and non-idle ticks where it wants them. No effect on the decision when no event has been seen yet.
+func VerifWatermarkTickIdle(w Window, idle bool) {
+	wm := verifWatermarkOf(w)
+	if wm == nil {
+		return
+	}
+	wm.mu.Lock()
+	if !wm.lastEventTime.IsZero() {
+		if idle {
+			wm.lastEventTime = time.Now().Add(-2*wm.idleTimeout - time.Second)
+		} else {
+			wm.lastEventTime = time.Now()
+		}
+	}
+	wm.mu.Unlock()
+	wm.update()
+}
+
 // VerifCurrentWatermark returns the current watermark (zero if none).
 func VerifCurrentWatermark(w Window) time.Time {
 	if wm := verifWatermarkOf(w); wm != nil {
